@@ -43,7 +43,7 @@ def _profiles():
 
 def plan(tier):
     main, probes = _profiles()
-    out = [{"name": "main", "examples": 3000 if tier == "quick" else 300000}]
+    out = [{"name": "main", "examples": 8000 if tier == "quick" else 300000}]
     for name in probes:
         out.append({"name": name, "examples": 320 if tier == "quick" else 3200, "shards": 4})
     out.append({"name": "release-after-done", "examples": 300 if tier == "quick" else 20000, "shards": 4})
